@@ -39,7 +39,8 @@ def gen_temporal(rng, n, tier):
     out = []
     for _ in range(n):
         k = rng.randint(2, 12)
-        ts = sorted(rng.sample(range(1000, 1000 + 4 * k + 10), k))
+        base = rng.choice([1000, 1000, 1000, 4107542390, 4107542400 + 86400 * 40, 951782390])       # ordinary instants, or around the end of February 2100 / 2000 and later in 2100
+        ts = sorted(rng.sample(range(base, base + 4 * k + 10), k))
         ms = [rng.choice([0, 0, 250, 500, 750]) for _ in ts]
         coords = [[float(rng.choice(VALS)) for _ in range(k)] for _ in range(3)]
         if rng.random() < 0.3:      # repeated positions
@@ -52,7 +53,7 @@ def gen_temporal(rng, n, tier):
         if form == 'number':
             dur = ts[-1] - ts[0]
             case['delta'] = rng.choice([1, 2, 0.5, 0.25, 5, dur, dur / 2.0, dur + 1, 3])
-            if rng.random() < 0.45:               # steps that are not dyadic, with and without a sub-millisecond part (the request is the float's exact value)
+            if rng.random() < 0.45 and base < 10 ** 6:      # steps that are not dyadic (not at instants of 4e9 s, where one ulp of the instant is already 5e-7 s), with and without a sub-millisecond part (the request is the float's exact value)
                 case['delta'] = rng.choice([1 / 3, 0.4375, 2.01, 4.02, 1.001, 0.7, 0.3, 1.1, 0.0625, 2.03])
                 t0 = F(ts[0]) + F(ms[0], 1000); t1 = F(ts[-1]) + F(ms[-1], 1000); d = F(case['delta']); kk = (t1 - t0) / d
                 if abs(kk - round(kk)) * d < F(1, 10 ** 6):
@@ -190,7 +191,8 @@ def gen_spatial(rng, n, tier):
         if all(X[i] == X[0] and Y[i] == Y[0] for i in range(k)):
             X[-1] += 3; Y[-1] += 4
         Z = [float(rng.choice([0, 1, 2, 10, 0.5])) for _ in range(k)]
-        T = sorted(rng.sample(range(100, 100 + 3 * k + 5), k))
+        base = rng.choice([100, 100, 100, 4107542390, 4107542400 + 86400 * 40, 951782390])
+        T = sorted(rng.sample(range(base, base + 3 * k + 5), k))
         out.append({'X': X, 'Y': Y, 'Z': Z, 'T': T, 'ms': [0] * k, 'ds': rng.choice([0.25, 0.5, 1, 2, 4, 5, 2.5, 10, 13]), 'zone': rng.choice([0, 0, 0, 2, -3])})
     return out
 
